@@ -270,7 +270,7 @@ def observe(ctx: fw.Ctx, names):
 
 
 def is_nix_ident(n: str) -> bool:
-    return (
+    return bool(n) and (
         (n[0].isascii() and (n[0].isalpha() or n[0] == "_"))
         and all(c.isascii() and (c.isalnum() or c in "_'-") for c in n)
         and n not in ("if", "then", "else", "assert", "with", "let", "in", "rec", "inherit")
